@@ -459,6 +459,12 @@ def check_chain(ctx, res, chain, rng, nprng, use_model=True, first_terms=()):
     # --- MPS level
     psi, vec = random_state(nprng, sites)
     check_mps(ctx, res, chain, sites, orc, psi, vec, rng, multi, ask, records)
+    try:
+        check_mps_extras(ctx, res, chain, sites, orc, psi, mps_to_dense(psi), rng)
+        check_terms_extras(ctx, res, chain, sites, orc, rng, multi)
+    except Exception as e:   # an unexpected exception class in an API path is itself a finding
+        import traceback
+        res.fail('property', 'chain.extra.crash', f'{type(e).__name__}: {e} ' + traceback.format_exc()[-600:], {'part': 'chain-mps-extra', 'chain': chain})
 
     if use_model and lines:
         answers = core.run_driver('C12', lines)
@@ -617,6 +623,264 @@ def check_mps(ctx, res, chain, sites, orc, psi, vec, rng, multi, ask, records):
                      f'{np.abs(got - want).max():.3g}', case)
 
 
+def _shift(term, d):
+    return [[w, i + d] for w, i in term]
+
+
+def check_mps_extras(ctx, res, chain, sites, orc, psi, vec, rng):
+    """coverage round: the remaining Jordan-Wigner paths of the MPS API, all against the dense oracle
+    (options of correlation_function, term(-list) correlation functions = _term_to_ops_list with JW_from_right
+    True/None, expectation_value_terms_sum, apply_local_op with an open string, expectation_value of an odd operator)"""
+    import tenpy.linalg.np_conserved as npc
+    from tenpy.networks.terms import TermList
+    L = len(sites)
+    atomic = [cc.fermionic_names(s) for s in sites]
+    base = {'part': 'chain-mps-extra', 'chain': chain}
+
+    def ev(term):
+        m, par = orc.term(term)
+        return np.vdot(vec, m @ vec), par
+
+    def bad(sig, what, detail):
+        res.fail('property', 'chain.' + sig, detail, dict(base, what=what))
+
+    def quiet(fn):
+        with warnings.catch_warnings():
+            warnings.simplefilter('ignore')
+            return fn()
+
+    all_ferm = all(a[0] for a in atomic)
+    if all_ferm and L >= 3:
+        o1 = [a[0][0] for a in atomic]                                  # e.g. C / Cu
+        o2 = [sites[k].hc_ops[o1[k]] for k in range(L)]                  # adjoints
+        want = np.array([[ev([[o2[i], i], [o1[j], j]])[0] for j in range(L)] for i in range(L)])
+        res.note_case(dict(base, what='corr-options'), True)
+        res.count('chain.extra.corr-options')
+        variants = {
+            'opstr=JW': lambda: psi.correlation_function(o2, o1, opstr='JW'),
+            'hermitian': lambda: psi.correlation_function(o2, o1, hermitian=True),
+            'autoJW=False+opstr': lambda: psi.correlation_function(o2, o1, opstr='JW', autoJW=False),
+        }
+        for name, fn in variants.items():
+            C = quiet(fn)
+            if not np.all(np.abs(C - want) <= 1e-9):
+                bad('correlation_function.option.' + name.split('=')[0], name, f'{name}: deviates by {np.abs(C - want).max():.3g}')
+        s1, s2 = [0, 2], list(range(1, L))
+        try:
+            C = quiet(lambda: psi.correlation_function(o2, o1, sites1=s1, sites2=s2, hermitian=True))
+            if not np.all(np.abs(C - want[np.ix_(s1, s2)]) <= 1e-9):
+                bad('correlation_function.option.sites', 'sites1/sites2', f'subsets {s1} x {s2} deviate')
+        except ValueError as e:
+            bad('correlation_function.option.hermitian-different-sites', 'hermitian=True, sites1 != sites2',
+                f'correlation_function(..., sites1={s1}, sites2={s2}, hermitian=True) raised ValueError ({e}) instead of '
+                f'ignoring the hermitian flag with a warning')
+        C = quiet(lambda: psi.correlation_function(o2, o1, sites1=s1, sites2=s2))
+        if not np.all(np.abs(C - want[np.ix_(s1, s2)]) <= 1e-9):
+            bad('correlation_function.option.sites', 'sites1/sites2', f'subsets {s1} x {s2} deviate')
+        C = quiet(lambda: psi.correlation_function(o2, o1, sites1=2, sites2=[L - 1]))
+        if not np.all(np.abs(C - want[np.ix_([0, 1], [L - 1])]) <= 1e-9):
+            bad('correlation_function.option.sites', 'int sites1', 'sites1=2 deviates')
+        C = quiet(lambda: psi.correlation_function(o2, o1, sites1=range(0, L - 1), sites2=[L - 1]))   # "inefficient" branch
+        if not np.all(np.abs(C - want[np.ix_(range(L - 1), [L - 1])]) <= 1e-9):
+            bad('correlation_function.option.sites', 'many-vs-one', 'deviates')
+        try:
+            quiet(lambda: psi.correlation_function(o2, o1, str_on_first=False))
+            bad('correlation_function.option.str_on_first', 'str_on_first=False', 'fermionic operators with str_on_first=False did not raise')
+        except ValueError:
+            pass
+        try:
+            quiet(lambda: psi.expectation_value(o1[0]))
+            bad('expectation_value.odd-operator-accepted', o1[0], f'expectation_value({o1[0]!r}) of a single fermionic operator did not raise')
+        except ValueError:
+            pass
+    # non-string operators: no JW can be determined, plain (bosonic) evaluation of even operators
+    e1 = [a[1][(1 if len(a[1]) > 1 else 0)] for a in atomic]
+    arrs = [sites[k].get_op(e1[k]) for k in range(L)]
+    want_e = np.array([[ev([[e1[i], i], [e1[j], j]])[0] for j in range(L)] for i in range(L)])
+    res.note_case(dict(base, what='corr-arrays'), False)
+    for a1, a2, nm in ((arrs, e1, 'arrays,names'), (e1, arrs, 'names,arrays')):
+        C = quiet(lambda: psi.correlation_function(a1, a2))
+        if not np.all(np.abs(C - want_e) <= 1e-9):
+            bad('correlation_function.option.arrays', nm, f'{nm}: deviates by {np.abs(C - want_e).max():.3g}')
+
+    # term correlation functions
+    ferm = [k for k in range(L) if atomic[k][0]]
+    uniform = len({cc.spec_key(s) for s in chain['specs']}) == 1
+    if uniform and all_ferm and L >= 4:
+        odd, even = atomic[0]
+        pool = [(w, True) for w in odd] + [(w, False) for w in even if w != 'Id']
+        for _ in range(6 if ctx.quick else 40):
+            nL, nR = rng.choice([1, 2]), rng.choice([1, 2])
+            tL = [[rng.choice(pool), k] for k in (rng.sample(range(2), nL))]
+            tR = [[rng.choice(pool), k] for k in (rng.sample(range(2), nR))]
+            if sum(p[1] for p, _ in tL + tR) % 2:
+                continue
+            tL = [[p[0], k] for p, k in tL]
+            tR = [[p[0], k] for p, k in tR]
+            case = dict(base, what='term_correlation', term_L=tL, term_R=tR)
+            res.note_case(case, True)
+            res.count('chain.extra.term-correlation')
+            wL, wR = max(k for _, k in tL) + 1, max(k for _, k in tR) + 1
+            js = list(range(wL - min(k for _, k in tR), L - wR + 1))
+            want = np.array([ev(tL + _shift(tR, j))[0] for j in js])
+            try:
+                got = quiet(lambda: psi.term_correlation_function_right([tuple(t) for t in tL], [tuple(t) for t in tR]))
+                if len(got) != len(want) or not np.all(np.abs(np.array(got) - want) <= 1e-9):
+                    res.fail('property', 'chain.term_correlation_function_right.value', f'{tL} x {tR}: {list(got)} vs dense {want.tolist()}', case)
+                j_fix = L - wR
+                iL = list(range(0, j_fix + min(k for _, k in tR) - wL + 1))
+                want_l = np.array([ev(_shift(tL, i) + _shift(tR, j_fix))[0] for i in iL])[::-1]
+                got = quiet(lambda: psi.term_correlation_function_left([tuple(t) for t in tL], [tuple(t) for t in tR], i_L=iL, j_R=j_fix))
+                if not np.all(np.abs(np.array(got) - want_l) <= 1e-9):
+                    res.fail('property', 'chain.term_correlation_function_left.value', f'{tL} x {tR}: {list(got)} vs dense {want_l.tolist()}', case)
+                # sums of terms
+                tL2 = [[rng.choice(pool)[0], 0]]
+                par = lambda t: sum(word_is_odd(w) for w, _ in t) % 2
+                if par(tL2) == par(tL):
+                    TL = TermList([[tuple(t) for t in tL], [tuple(t) for t in tL2]], [0.5, -1.25])
+                    TR = TermList([[tuple(t) for t in tR]], [2.0])
+                    js2 = list(range(wL - min(k for _, k in tR), L - wR + 1))
+                    want2 = np.array([2.0 * (0.5 * ev(tL + _shift(tR, j))[0] - 1.25 * ev(tL2 + _shift(tR, j))[0]) for j in js2])
+                    got = quiet(lambda: psi.term_list_correlation_function_right(TL, TR, 0, js2))
+                    if not np.all(np.abs(np.array(got) - want2) <= 1e-9):
+                        res.fail('property', 'chain.term_list_correlation_function_right.value',
+                                 f'{tL}+{tL2} x {tR}: {list(got)} vs dense {want2.tolist()}', case)
+            except ValueError as e:
+                res.fail('property', 'chain.term_correlation_function.rejected', f'{tL} x {tR}: {e}', case)
+    # expectation_value_terms_sum
+    if len(ferm) >= 2:
+        terms, strengths, want = [], [], 0.
+        for _ in range(4):
+            i, j = rng.sample(ferm, 2)
+            t = [[rng.choice(atomic[i][0]), i], [rng.choice(atomic[j][0]), j]]
+            sgth = rng.choice([1.0, -0.5, 0.25])
+            terms.append([tuple(x) for x in t])
+            strengths.append(sgth)
+            want += sgth * ev(t)[0]
+        case = dict(base, what='terms_sum', terms=[[list(x) for x in t] for t in terms], strengths=strengths)
+        res.note_case(case, True)
+        try:
+            got, _ = quiet(lambda: psi.expectation_value_terms_sum(TermList(terms, strengths)))
+            if abs(got - want) > 1e-9:
+                res.fail('property', 'chain.expectation_value_terms_sum.value', f'{terms}: {got} vs dense {want}', case)
+        except ValueError as e:
+            if charge_neutral_sum(sites, orc, terms):
+                res.fail('property', 'chain.expectation_value_terms_sum.rejected', f'{terms}: {e}', case)
+    # without charge_to_JW_parity an open string cannot be applied: documented ValueError
+    if ferm and not all(getattr(s, 'charge_to_JW_parity', None) is not None for s in sites):
+        i = ferm[-1]
+        w = atomic[i][0][0]
+        if getattr(sites[i], 'charge_to_JW_parity', None) is None:
+            for what, fn in (('apply_local_op', lambda: psi.copy().apply_local_op(i, w, unitary=False)),
+                             ('apply_local_term', lambda: psi.copy().apply_local_term([(w, i)], canonicalize=False))):
+                try:
+                    quiet(fn)
+                    bad(what + '.open-string-without-signs', f'{w}_{i}', f'{what} of a fermionic operator without '
+                        f'charge_to_JW_parity did not raise')
+                except ValueError:
+                    pass
+    # apply_local_op with a fermionic operator: needs charge_to_JW_signs
+    if all(getattr(s, 'charge_to_JW_parity', None) is not None for s in sites):
+        for i in rng.sample(ferm, min(2, len(ferm))):
+            w = rng.choice(atomic[i][0])
+            case = dict(base, what='apply_local_op', i=i, op=w)
+            m, _ = orc.image(i, w)
+            want = m @ vec
+            if np.linalg.norm(want) < 1e-8:
+                continue
+            res.note_case(case, True)
+            res.count('chain.extra.apply_local_op')
+            phi = psi.copy()
+            try:
+                quiet(lambda: phi.apply_local_op(i, w, unitary=False))
+            except ValueError as e:
+                res.fail('property', 'chain.apply_local_op.rejected', f'{w}_{i}: {e}', case)
+                continue
+            got = mps_to_dense(phi)
+            if not np.all(np.abs(got - want) <= 1e-9):
+                only_sign = np.all(np.abs(got + want) <= 1e-9)
+                res.fail('property', 'chain.apply_local_op.open-string' + ('.global-sign' if only_sign else ''),
+                         f'apply_local_op({i}, {w!r}): state deviates from the dense Jordan-Wigner image by '
+                         f'{np.abs(got - want).max():.3g}', case)
+
+
+def charge_neutral_sum(sites, orc, terms):
+    from harness.c12_model import charge_conserving
+    charged = [not charge_conserving(sites, orc.term([list(x) for x in t])[0]) for t in terms]
+    return not any(charged)
+
+
+def check_terms_extras(ctx, res, chain, sites, orc, rng, multi):
+    """coverage round: MultiCouplingTerms options (switchLR, add_coupling_term) and argument errors of the term
+    containers; every variant must give the same dense operator"""
+    from tenpy.networks.terms import CouplingTerms, MultiCouplingTerms, order_combine_term
+    from tenpy.networks.mpo import MPOGraph
+    from tenpy.algorithms.exact_diag import ExactDiag
+    L = len(sites)
+
+    def dense_of(ct):
+        with warnings.catch_warnings():
+            warnings.simplefilter('ignore')
+            mpo = MPOGraph.from_terms([ct], sites, 'finite').build_MPO()
+            ed = ExactDiag.from_H_mpo(mpo)
+            ed.build_full_H_from_mpo()
+            H = ed.full_H.split_legs()
+            H = H.transpose(['p%d' % i for i in range(L)] + ['p%d*' % i for i in range(L)]).to_ndarray()
+        return H.reshape(orc.D, orc.D)
+
+    done = 0
+    for term in multi:
+        ref, parity = orc.term(term)
+        if parity or np.abs(ref).max() < 1e-12:
+            continue
+        comb, sign = order_combine_term([(w, i) for w, i in term], sites)
+        if len(comb) < 2:
+            continue
+        case = {'part': 'chain-terms-extra', 'chain': chain, 'term': term}
+        ijkl = [i for _, i in comb]
+        variants = ['middle_i', 'middle_op', None, ijkl[0], ijkl[-1], (ijkl[0] + ijkl[-1]) // 2]
+        for sw in variants:
+            ct = MultiCouplingTerms(L)
+            try:
+                with warnings.catch_warnings():
+                    warnings.simplefilter('ignore')
+                    if len(comb) == 2 and sw in ('middle_i', None):
+                        args = ct.coupling_term_handle_JW(float(sign), comb, sites)
+                        ct.add_coupling_term(*args, switchLR=sw)
+                    else:
+                        args = ct.multi_coupling_term_handle_JW(float(sign), comb, sites)
+                        ct.add_multi_coupling_term(*args, switchLR=sw)
+                H = dense_of(ct)
+            except ValueError as e:
+                from harness.c12_model import charge_conserving
+                if charge_conserving(sites, ref):
+                    res.fail('property', 'chain.multi_coupling.switchLR.rejected', f'{term} switchLR={sw}: {e}', case)
+                break
+            res.count('chain.extra.switchLR')
+            if not np.all(np.abs(H - ref) <= TOL):
+                res.fail('property', 'chain.multi_coupling.switchLR.dense', f'term {term}, switchLR={sw!r}: dense MPO differs from '
+                         f'the Jordan-Wigner product by {np.abs(H - ref).max():.3g}', case)
+                break
+        res.note_case(case, True)
+        done += 1
+        if done >= (4 if ctx.quick else 30):
+            break
+    # argument errors
+    case = {'part': 'chain-terms-extra', 'chain': chain, 'what': 'errors'}
+    for fn in (lambda: CouplingTerms(L).add_coupling_term(1., L, L + 1, 'Id', 'Id'),
+               lambda: CouplingTerms(L).add_coupling_term(1., 1, 1, 'Id', 'Id'),
+               lambda: MultiCouplingTerms(L).add_coupling_term(1., 1, 0, 'Id', 'Id'),
+               lambda: MultiCouplingTerms(L).add_coupling_term(1., -1, 0, 'Id', 'Id'),
+               lambda: MultiCouplingTerms(L).add_multi_coupling_term(1., [0], ['Id'], []),
+               lambda: MultiCouplingTerms(L).add_multi_coupling_term(1., [1, 0], ['Id', 'Id'], 'Id'),
+               lambda: MultiCouplingTerms(L).multi_coupling_term_handle_JW(1., [('Id', 0)], sites)):
+        try:
+            fn()
+            res.fail('property', 'chain.terms.invalid-argument-accepted', 'invalid indices accepted', case)
+        except (ValueError, AssertionError):
+            pass
+
+
 # ------------------------------------------------------------------------------------------------
 def run_needjw(ctx, res, use_model=True):
     """Site.op_needs_JW on random words vs model vs parity oracle."""
@@ -647,6 +911,19 @@ def run_needjw(ctx, res, use_model=True):
                     if (got and not anti) or (not got and not comm):
                         res.fail('property', 'site.op_needs_JW.parity', f'{spec["cls"]}: op_needs_JW({w!r}) = {got} but the '
                                  f'operator {"commutes" if comm else "does not anticommute"} with JW', case)
+    # order_combine_term on a term of more than 100 operators (warning branch), symbolic comparison only
+    site = cc.make_site(specs[0])
+    long_term = [[rng.choice(['C', 'Cd', 'N']), rng.randrange(6)] for _ in range(104)]
+    with warnings.catch_warnings():
+        warnings.simplefilter('ignore')
+        long_impl = impl_oc(long_term, [site] * 6)
+    if use_model:
+        ans = core.run_driver('C12', [{'k': 'oc', 'sites': [NJW['fermion']] * 6, 'term': long_term}])[0]
+        res.traces_validated += 1
+        res.note_case({'part': 'oc-long', 'term': long_term}, True)
+        if ans != long_impl:
+            res.fail('correspondence', 'chain.oc.model-vs-impl', f'104-operator term: impl {long_impl} model {ans}',
+                     {'part': 'oc-long', 'term': long_term})
     if use_model:
         for case, got, ans in zip(cases, impl, core.run_driver('C12', lines)):
             res.traces_validated += 1
